@@ -12,7 +12,7 @@ import re
 import shutil
 import sys
 
-from engine import (Check, tlc_ok, validate_traces, scratch, bfg_configure,
+from engine import (Check, tla_set, tlc_ok, validate_traces, scratch, bfg_configure,
                     pmap, run, tool_env, syms, MachineryError)
 
 ALPHA = ['a', ' ', 'TAB', '"', '\\']
@@ -20,8 +20,7 @@ CH = {'TAB': '\t'}
 
 
 def wcfg(mode, max1, max2):
-    c = 'CONSTANTS\n Alpha = {%s}\n Max1 = %d\n Max2 = %d\n' % (
-        ', '.join(json.dumps(x) for x in ALPHA), max1, max2)
+    c = 'CONSTANTS\n Alpha <- AlphaDef\n Max1 = %d\n Max2 = %d\n' % (max1, max2)
     if mode == 'mc':
         c += 'SPECIFICATION Spec\nINVARIANT RoundTrip\nCHECK_DEADLOCK FALSE\n'
     else:
@@ -134,7 +133,8 @@ def main(argv):
 
     # (a) design model vs Microsoft runtime model, exhaustive
     m1, m2 = (6, 3) if ck.quick else (7, 4)
-    r = tlc_ok('WinArgv', wcfg('mc', m1, m2))
+    r = tlc_ok('WinArgv', wcfg('mc', m1, m2),
+               defs='AlphaDef == ' + tla_set(ALPHA))
     if r.invariant_violated:
         ck.report('C20:design:RoundTrip', 'design model of windows.quote '
                   'violates the runtime round trip:\n' + r.tail(30))
@@ -157,7 +157,7 @@ def main(argv):
             'args': args, 'line': syms(line),
             'split_back': [syms(x) for x in back]}]})
     rej, st = validate_traces('WinArgv_Trace', wcfg('trace', 1, 1), traces,
-                              chunk=20000)
+                              chunk=20000, defs='AlphaDef == {"a"}')
     ck.states += st['distinct']
     ck.transitions += st['generated']
     ck.traces += len(traces)
